@@ -275,6 +275,12 @@ def remainingNames (m : Mol) : List String :=
 def remainingPart (m : Mol) : List Line :=
   (remainingNames m).flatMap (fun n => [Line.sect n] ++ linesOf m.pre n ++ linesOf m.post n ++ [Line.blank])
 
+/-- the left-over sections written in a GIVEN order.  In the code the order is the iteration order of
+a Python `set` of section names (`remaining_sections`), which depends on the per-process string hash
+seed: any permutation of `remainingNames m` can be observed. -/
+def remainingPartOf (m : Mol) (names : List String) : List Line :=
+  names.flatMap (fun n => [Line.sect n] ++ linesOf m.pre n ++ linesOf m.post n ++ [Line.blank])
+
 /-- an atom the `[ atoms ]` columns can express: not (mass present and charge absent) -/
 def atomOk (a : Atom) : Bool := !(a.mass != "" && a.charge == "")
 
@@ -290,6 +296,16 @@ def write (m : Mol) : Except Err (List Line) :=
   -- in the positional columns (the mass would be read as the charge); ValueError
   else if !m.atoms.all atomOk then .error .valueerror
   else writeBody m
+
+/-- the writer with the iteration order of the left-over section set made explicit -/
+def writeBodyOrd (m : Mol) (names : List String) : Except Err (List Line) := do
+  let secs ← (sortInteractions m).mapM (writeSection m (correspondence m) (widthsOf m).idx)
+  pure (prelude m ++ atomsPart m ++ secs.flatten ++ remainingPartOf m names)
+
+def writeOrd (m : Mol) (names : List String) : Except Err (List Line) :=
+  if m.atoms.isEmpty then .error .valueerror
+  else if !m.atoms.all atomOk then .error .valueerror
+  else writeBodyOrd m names
 
 /-! ### tokens of a line, whitespace splitter -/
 
